@@ -14,10 +14,11 @@ REASM_ASSUME=["single goroutine","clock stub: time.Now returns a constant instan
 REASM_OUT=["histories longer than the stated k","multi-goroutine use (C11)","Push(typ, raw) text parsing (C04/C05)"]
 def reasm(prop,extra_quick=(),extra_thorough=()):
     jobs=[]
+    k4 = (0,1,2) if prop=="C03" else (0,1,2,3)
     for mif in (2,0):
         jobs.append(job(f"api-k3-mif{mif}",".","VH_Reassembler",[prop+"/"],{"k":3,"maxInFlight":mif},QO,
                     bounds=f"k=3 operations (push with symbolic uint32 sequence + uint16 type | Maintain) then Close; maxInFlight={mif}"))
-    for mif in (0,1,2,3):
+    for mif in k4:
         jobs.append(job(f"api-k4-mif{mif}",".","VH_Reassembler",[prop+"/"],{"k":4,"maxInFlight":mif},T,
                     bounds=f"k=4 operations then Close; maxInFlight={mif}"))
     jobs.append(job("api-k3-nilpush",".","VH_Reassembler",[prop+"/"],{"k":3,"maxInFlight":1,"nilpush":1},Q,bounds="k=3 incl. PushMessage(nil); maxInFlight=1"))
